@@ -530,7 +530,8 @@ def generate(rng, tier):
         cases.append(h.line())
     for _ in range(npairs):
         cases.append(pair(rng, lens))
-    return cases
+    import extra_cases          # API-audit additions (docs/API_COVERAGE.md); produced after the original cases
+    return cases + extra_cases.c04(rng, tier)
 
 
 def extra_checks(ctx):
@@ -538,6 +539,8 @@ def extra_checks(ctx):
     import random, collections
     rng = random.Random(ctx["seed"] * 1000003 + 4)
     cases = generate(rng, ctx["tier"])
+    extra_ops = collections.Counter(c.split(" ")[0] for c in cases if not c.startswith("hist."))
+    cases = [c for c in cases if c.startswith("hist.")]          # the distribution below is about the Hist.v machine
     ops, ctors, lens = collections.Counter(), collections.Counter(), collections.Counter()
     grow_shrink = lost = 0
     for c in cases:
@@ -554,7 +557,8 @@ def extra_checks(ctx):
     return {"coverage": {"hist_ops": dict(sorted(ops.items())), "hist_ctors": dict(sorted(ctors.items())),
                          "hist_lengths": dict(lens), "histories_growing_and_shrinking": grow_shrink,
                          "pairs_same_value": STATS["pair_same"], "pairs_different_value": STATS["pair_diff"],
-                         "histories_ending_in_panic": STATS["panic"]},
+                         "histories_ending_in_panic": STATS["panic"],
+                         "audit_extra_ops": dict(sorted(extra_ops.items()))},
             "broken": [], "violations": []}
 
 
@@ -562,6 +566,8 @@ def nontrivial(case):
     toks = case.split(" ")
     if toks[0] == "hist.pair":
         return True
+    if not toks[0].startswith("hist"):                       # audit additions: ord / sort / hash / arb / qc
+        return any("," in t for t in toks[1:]) or toks[0].startswith("qc.") or any(len(t) > 20 for t in toks[1:])
     return toks[2].count(";") >= 2 or "," in toks[1]
 
 
